@@ -155,12 +155,12 @@ func main() {
 			outDir = o
 		}
 		worst := 0
+		ctx := &checks.Ctx{P: p, W: w, Tier: "quick"} // shared: sibling rule sets adopted by several checks are evaluated once
 		for _, id := range strings.Split(os.Args[2], ",") {
 			fn, ok := checks.Registry[id]
 			if !ok {
 				continue
 			}
-			ctx := &checks.Ctx{P: p, W: w, Tier: "quick"}
 			var res *report.Result
 			func() {
 				defer func() {
@@ -220,7 +220,7 @@ func main() {
 	}
 	meta := report.Meta{Tier: tier, Seed: seed, Wall: time.Since(t0), VerifDir: verifDir, OutDir: outDir,
 		Packages: len(p.Pkgs), Functions: len(p.Funcs), Instrs: p.NumInstr, Commit: repoState(),
-		Cmd: "./check " + cmd + " " + tier,
+		Cmd:       "./check " + cmd + " " + tier,
 		WorldInfo: map[string]interface{}{"objects": len(w.It.Objects), "entries": len(w.Entries), "inference_rounds": w.Rounds, "invariant_cells": len(w.Inv), "int_width": intWidth()}}
 	code := report.Finish(res, meta)
 	pprof.StopCPUProfile()
